@@ -91,19 +91,16 @@ def op_unquote(py, f):
     return enc_str(csv_utils.unquote_field(dec_str(f)))
 
 
-def make_stream(enc, pieces_txt):
-    pieces = dec_list(pieces_txt)
+def make_stream(enc, pieces):
     if enc == 'none':
         return PieceStream(pieces), None
     raw = PieceRaw([bytes(ord(c) for c in p) for p in pieces])
     return io.BufferedReader(raw, buffer_size=8), enc
 
 
-def op_readpy(pol, enc, hdr, modi, chunk, d, comment, pieces_txt):
-    stream, encoding = make_stream(enc, pieces_txt)
-    comment_prefix = None if comment == '~' else dec_str(comment)
+def read_result(stream, encoding, pol, hdr, modi, chunk, d, comment_prefix):
     try:
-        it = rbql_csv.CSVRecordIterator(stream, encoding, dec_str(d), pol, has_header=(hdr == '1'), comment_prefix=comment_prefix, chunk_size=int(chunk))
+        it = rbql_csv.CSVRecordIterator(stream, encoding, d, pol, has_header=(hdr == '1'), comment_prefix=comment_prefix, chunk_size=chunk)
         if modi == 'h':
             it.handle_query_modifier('header')
         elif modi == 'N':
@@ -121,7 +118,54 @@ def op_readpy(pol, enc, hdr, modi, chunk, d, comment, pieces_txt):
     return 'ok %s %s %s' % (enc_opt_list(header), enc_table(records), canon_warnings(warnings))
 
 
-OPS = {'split': op_split, 'quote': op_quote, 'unquote': op_unquote, 'readpy': op_readpy}
+def op_readpy(pol, enc, hdr, modi, chunk, d, comment, pieces_txt):
+    stream, encoding = make_stream(enc, dec_list(pieces_txt))
+    comment_prefix = None if comment == '~' else dec_str(comment)
+    return read_result(stream, encoding, pol, hdr, modi, int(chunk), dec_str(d), comment_prefix)
+
+
+def partitions(data):
+    n = len(data)
+    if n == 0:
+        yield []
+        return
+    for mask in range(1 << (n - 1)):
+        pieces = []
+        start = 0
+        for i in range(1, n):
+            if mask & (1 << (i - 1)):
+                pieces.append(data[start:i])
+                start = i
+        pieces.append(data[start:])
+        yield pieces
+
+
+def op_readpyall(pol, enc, hdr, modi, d, comment, text, bytes_txt):
+    """Every partition of the text (or of its bytes) x every chunk size 1..n+1; the common result,
+    or the first deviation from reading the input whole."""
+    data = dec_str(text) if enc == 'none' else dec_str(bytes_txt)
+    comment_prefix = None if comment == '~' else dec_str(comment)
+    delim = dec_str(d)
+    n = len(data)
+    stream, encoding = make_stream(enc, [data] if n else [])
+    baseline = read_result(stream, encoding, pol, hdr, modi, 1024, delim, comment_prefix)
+    for pieces in partitions(data):
+        for chunk in range(1, n + 2):
+            stream, encoding = make_stream(enc, pieces)
+            r = read_result(stream, encoding, pol, hdr, modi, chunk, delim, comment_prefix)
+            if r != baseline:
+                return 'DIFF pieces=%s chunk=%d got=[%s] whole=[%s]' % (enc_list(pieces), chunk, r, baseline)
+    return baseline
+
+
+def op_readboth(pol, enc, hdr, modi, d, comment, text):
+    t = dec_str(text)
+    data = t.encode('utf-8' if enc == 'utf-8' else 'latin-1')
+    stream, encoding = make_stream(enc, [''.join(chr(x) for x in data)] if data else [])
+    return read_result(stream, encoding, pol, hdr, modi, 1024, dec_str(d), None if comment == '~' else dec_str(comment))
+
+
+OPS = {'readboth': op_readboth, 'split': op_split, 'quote': op_quote, 'unquote': op_unquote, 'readpy': op_readpy, 'readpyall': op_readpyall}
 
 
 def register(name, fn):
